@@ -245,6 +245,8 @@ def corr_ns_headers(ctx, corr):
 def correspond(ctx):
     corr = Corr()
     rng = ctx.rng
+    from harness import bodies
+    bodies.corr_ns_bodies(ctx, corr)
     srcs = list(impl.corpus())
     for _ in range(ctx.scale(300, 6000)):
         srcs.append(blocks.gen_program(rng, rng.choice([4, 10, 25, 50])).source())
